@@ -71,8 +71,9 @@ def run (args : List String) : String :=
     match enc.toInt?, hostlen.toNat?, pwlen.toNat? with
     | some enc, some hostlen, some pwlen =>
       -- `cut:<k>` only tells the harness how to packetise the replies (every k bytes): what the channel
-      -- delivers does not depend on it (C02)
-      match deliveredOf (toks.filter (fun t => !t.startsWith "cut:")) none false [] with
+      -- delivers does not depend on it (C02); `eof`: the peer closes right behind its last reply — what was
+      -- received is consumed first (NextPackage hands out queued packages before queued errors)
+      match deliveredOf (toks.filter (fun t => !t.startsWith "cut:" && t != "eof")) none false [] with
       | none => "bad-op"
       | some q =>
         -- RSA-OAEP/SHA-1 with the harness' 1024 bit key carries at most 86 bytes: nonce ++ secret
